@@ -438,3 +438,59 @@ class SymDict(ModelObj):
 def _val_sort():
     from .terms import Val
     return Val
+
+
+class SymSet(ModelObj):
+    """A set of unknown size: mem : Array(K, Bool); iteration is an enumeration without repetition."""
+
+    type_names = ("set",)
+
+    def __init__(self, mem, ksort):
+        self.mem, self.ksort = mem, ksort
+        self._enum = None
+
+    @staticmethod
+    def fresh(ctx, name, ksort):
+        return SymSet(ctx.fresh(name, z3.ArraySort(ksort, z3.BoolSort())), ksort)
+
+    def has(self, x):
+        return z3.Select(self.mem, to_z3(x, self.ksort))
+
+    def m_contains(self, I, x):
+        return Sym(self.has(x))
+
+    def do_copy(self, I):
+        return SymSet(self.mem, self.ksort)
+
+    def do_add(self, I, x):
+        self.mem = z3.Store(self.mem, to_z3(x, self.ksort), z3.BoolVal(True))
+        self._enum = None
+
+    def do_update(self, I, other):
+        if isinstance(other, SymSet):
+            k = z3.Const("k!u", self.ksort)
+            a, b = self.mem, other.mem
+            self.mem = z3.Lambda([k], z3.Or(z3.Select(a, k), z3.Select(b, k)))
+            self._enum = None
+            return
+        for x in I.concrete_list(other):
+            self.do_add(I, x)
+
+    def enum(self, ctx):
+        if self._enum is None:
+            n = ctx.fresh("sn", z3.IntSort())
+            ks = ctx.fresh_fun("sks", z3.IntSort(), self.ksort)
+            pos = ctx.fresh_fun("spos", self.ksort, z3.IntSort())
+            k = z3.Const("k!e", self.ksort)
+            i = z3.Int("i!e")
+            ctx.assume(n >= 0)
+            ctx.assume(z3.ForAll([k], z3.Select(self.mem, k) == z3.And(pos(k) >= 0, pos(k) < n, ks(pos(k)) == k)))
+            ctx.assume(z3.ForAll([i], z3.Implies(z3.And(i >= 0, i < n), z3.And(pos(ks(i)) == i, z3.Select(self.mem, ks(i))))))
+            self._enum = (n, ks, pos)
+        return self._enum
+
+    def m_iter(self, I):
+        n, ks, _ = self.enum(I.ctx)
+        sl = SymList(n, lambda i: Sym(ks(i)), elem_sort=self.ksort)
+        sl.src_set = self
+        return sl
